@@ -39,4 +39,355 @@ theorem field_compact_split (hs ss : List Str) (L T footer : Str) (h : compactDo
   congr 3
   simp only [unlines_append, List.length_append, List.length_cons]; omega
 
+/-- `L` is the Google `Raises:` heading (treated specially by `_get_token_last_idx_if_no_next_token`) -/
+def isRaises (L : Str) : Bool := lstrip L == "Raises:".toList
+
+theorem lineVerdict_none (n : Nat) (L : Str) (h : isRaises L = false) : lineVerdict n L = none := by
+  unfold lineVerdict; unfold isRaises at h; rw [h]; rfl
+
+theorem lineVerdict_raises (n : Nat) (L : Str) (h : isRaises L = true) : lineVerdict n L = some ((n : Int) - 1) := by
+  unfold lineVerdict; unfold isRaises at h; rw [h]; rfl
+
+theorem tokLine_lineOk (L : Str) (h : tokLine L = true) : '\n' ∉ L := by
+  simp only [tokLine, Bool.and_eq_true] at h; exact lineOk_sound L h.1
+
+/-- **adjacent** field list: the section ends with the newline of the last-token line `L`; the footer is empty or starts
+    with a non-blank character that does not begin a token, and the walker finds no token in it -/
+def adjacentDom (hs ss : List Str) (L footer : Str) : Bool :=
+  fieldCommon hs ss L && !isRaises L && decide (2 ≤ (unlines (hs ++ ss)).length)
+    && (match footer with | [] => true | c :: _ => !isSpaceC c) && !startsWithAny tokensSet footer && quiet none [] footer
+
+theorem field_adjacent_split (hs ss : List Str) (L footer : Str) (h : adjacentDom hs ss L footer = true) :
+    idxPair (unlines hs ++ (unlines ss ++ L ++ ['\n']) ++ footer)
+      = .ok (((unlines hs).length : Int), (((unlines hs).length + (unlines ss ++ L ++ ['\n']).length : Nat) : Int)) := by
+  simp only [adjacentDom, fieldCommon, Bool.and_eq_true, Bool.not_eq_true', decide_eq_true_eq] at h
+  obtain ⟨⟨⟨⟨⟨⟨⟨⟨hh, hss⟩, hF⟩, hL⟩, hR⟩, h2⟩, hfs⟩, hnt⟩, hq⟩ := h
+  obtain ⟨hstart, hfmt, lf, hlf, hlo, hhi⟩ := field_frame hs ss L footer hh hss hF hL hq
+  have hd : unlines hs ++ (unlines ss ++ L ++ ['\n']) ++ footer = unlines (hs ++ ss) ++ L ++ '\n' :: footer := by
+    simp [unlines_append]
+  rw [hd]
+  obtain ⟨p, hp, hpe⟩ := unlines_snoc (hs ++ ss) h2
+  have hpost : footer = [] ∨ ∃ c cs, footer = c :: cs ∧ isSpaceC c = false := by
+    cases footer with
+    | nil => exact Or.inl rfl
+    | cons c cs => exact Or.inr ⟨c, cs, rfl, by simpa using hfs⟩
+  rw [hpe] at hlf hlo hhi hfmt hstart ⊢
+  have hlast := last_adjacent p L footer lf hlf hlo hhi hp (tokLine_lineOk L hL) hpost hnt (tokLine_not_dashes L hL) hfmt
+  rw [lineVerdict_none _ _ hR] at hlast
+  rw [idxPair_of _ _ _ hstart hlast]
+  have hlen : (p ++ ['\n']).length = (unlines hs).length + (unlines ss).length := by
+    rw [← hpe, unlines_append, List.length_append]
+  congr 3
+  simp only [Option.getD_none, List.length_append, List.length_cons, List.length_nil] at hlen ⊢; omega
+
+/-- **absorbed** field list (the usual layout of this code base's ReST docstrings, and of every Google docstring): the
+    last-token line `L` is followed by white space — a blank line or an indented line — and then by anything in which the
+    walker finds no token -/
+def absorbedDom (hs ss : List Str) (L post : Str) : Bool :=
+  fieldCommon hs ss L && !isRaises L && decide (2 ≤ (unlines (hs ++ ss)).length)
+    && (match post with | [] => false | c :: _ => isSpaceC c) && quiet none [] post
+
+theorem lstrip_length (Z : Str) : (lstrip Z).length = Z.length - leadingWs Z := by
+  rw [← drop_leadingWs, List.length_drop]
+
+/-- what `_get_token_last_idx` returns in the absorbed shape, in terms of the whole string -/
+theorem absorbed_last (d A : Str) (hd : d = A ++ '\n' :: lastLine d) (v : Option Int) :
+    (if startsWithAny tokensSet (lstrip (lastLine d)) then (d.length : Int)
+      else v.getD ((A.length + 1 + leadingWs (lastLine d) : Nat) : Int))
+    = if startsWithAny tokensSet (lstrip (lastLine d)) then (d.length : Int)
+      else v.getD (((d.length - (absorbedFooter d).length : Nat)) : Int) := by
+  by_cases ht : startsWithAny tokensSet (lstrip (lastLine d)) = true
+  · simp only [ht, if_true]
+  · simp only [ht, Bool.false_eq_true, if_false, absorbedFooter]
+    have h1 := congrArg List.length hd
+    have h2 := lstrip_length (lastLine d)
+    have h3 := leadingWs_le (lastLine d)
+    simp only [List.length_append, List.length_cons] at h1
+    congr 3
+    omega
+
+theorem field_absorbed_split (hs ss : List Str) (L post : Str) (h : absorbedDom hs ss L post = true) :
+    idxPair (unlines hs ++ unlines ss ++ L ++ '\n' :: post)
+      = .ok (((unlines hs).length : Int),
+             (((unlines hs ++ unlines ss ++ L ++ '\n' :: post).length
+                - (absorbedFooter (unlines hs ++ unlines ss ++ L ++ '\n' :: post)).length : Nat) : Int)) := by
+  simp only [absorbedDom, fieldCommon, Bool.and_eq_true, Bool.not_eq_true', decide_eq_true_eq] at h
+  obtain ⟨⟨⟨⟨⟨⟨⟨hh, hss⟩, hF⟩, hL⟩, hR⟩, h2⟩, hws⟩, hq⟩ := h
+  obtain ⟨hstart, hfmt, lf, hlf, hlo, hhi⟩ := field_frame hs ss L post hh hss hF hL hq
+  have hd : unlines hs ++ unlines ss ++ L ++ '\n' :: post = unlines (hs ++ ss) ++ L ++ '\n' :: post := by
+    simp [unlines_append]
+  rw [hd]
+  generalize hdd : unlines (hs ++ ss) ++ L ++ '\n' :: post = d at *
+  obtain ⟨p, hp, hpe⟩ := unlines_snoc (hs ++ ss) h2
+  have hpost : ∃ w ws, post = w :: ws ∧ isSpaceC w = true := by
+    cases post with
+    | nil => cases hws
+    | cons c cs => exact ⟨c, cs, rfl, hws⟩
+  obtain ⟨A, hA⟩ := lastLine_decomp d (by rw [← hdd]; simp)
+  rw [hpe] at hlo hhi hdd
+  have hlast := last_absorbed d p L post A (lastLine d) lf hdd.symm hA hlf hlo hhi hp (tokLine_lineOk L hL)
+    (lastLine_noNl d) hpost (tokLine_not_dashes L hL) hfmt
+  rw [lineVerdict_none _ _ hR, absorbed_last d A hA] at hlast
+  rw [idxPair_of _ _ _ hstart hlast]
+  congr 2
+  by_cases ht : startsWithAny tokensSet (lstrip (lastLine d)) = true
+  · simp [ht, absorbedFooter]
+  · simp [ht]
+
+/-- … as three pieces: header, *some* section, and the footer `absorbedFooter d` = the last line of the whole string
+    without its indentation (empty if the string ends with a newline, or if that line starts with a token) -/
+theorem field_absorbed_pieces (hs ss : List Str) (L post : Str) (h : absorbedDom hs ss L post = true) :
+    ∃ sec, unlines hs ++ unlines ss ++ L ++ '\n' :: post
+             = unlines hs ++ sec ++ absorbedFooter (unlines hs ++ unlines ss ++ L ++ '\n' :: post)
+      ∧ idxPair (unlines hs ++ sec ++ absorbedFooter (unlines hs ++ unlines ss ++ L ++ '\n' :: post))
+          = .ok (((unlines hs).length : Int), (((unlines hs).length + sec.length : Nat) : Int)) := by
+  have hidx := field_absorbed_split hs ss L post h
+  generalize hdd : unlines hs ++ unlines ss ++ L ++ '\n' :: post = d at *
+  have hnl : '\n' ∈ d := by rw [← hdd]; simp
+  have hle : (absorbedFooter d).length ≤ post.length := by
+    have h1 := absorbedFooter_le d
+    have h2 := lastLine_le (unlines hs ++ unlines ss ++ L) post
+    rw [hdd] at h2; omega
+  have hpre : unlines hs <+: d := ⟨unlines ss ++ L ++ '\n' :: post, by rw [← hdd]; simp⟩
+  have hlen : (unlines hs).length + (absorbedFooter d).length ≤ d.length := by
+    rw [← hdd] at hle ⊢; simp only [List.length_append, List.length_cons] at hle ⊢; omega
+  obtain ⟨sec, hsec⟩ := split3 d (unlines hs) (absorbedFooter d) hpre (absorbedFooter_suffix d hnl) hlen
+  refine ⟨sec, hsec, ?_⟩
+  rw [← hsec, hidx]
+  congr 3
+  have := congrArg List.length hsec
+  simp only [List.length_append] at this; omega
+
+/-- in particular, when the docstring ends with a newline **the footer slice is empty**: everything after the header,
+    blank-line-separated prose included, is in the section slice -/
+theorem field_absorbed_nl (hs ss : List Str) (L post : Str) (h : absorbedDom hs ss L (post ++ ['\n']) = true) :
+    idxPair (unlines hs ++ unlines ss ++ L ++ '\n' :: (post ++ ['\n']))
+      = .ok (((unlines hs).length : Int), ((unlines hs ++ unlines ss ++ L ++ '\n' :: (post ++ ['\n'])).length : Int)) := by
+  rw [field_absorbed_split hs ss L _ h]
+  have : unlines hs ++ unlines ss ++ L ++ '\n' :: (post ++ ['\n']) = (unlines hs ++ unlines ss ++ L ++ '\n' :: post) ++ ['\n'] := by simp
+  have hf : absorbedFooter (unlines hs ++ unlines ss ++ L ++ '\n' :: (post ++ ['\n'])) = [] := by
+    rw [this]; unfold absorbedFooter; rw [lastLine_append_nl]; rfl
+  rw [hf]; simp
+
+/-- **unterminated** field list: the last-token line `L` is the last line of the docstring, has no newline after it, and
+    starts (after indentation) with a token; at least one section line precedes it -/
+def unterminatedDom (hs ss : List Str) (L : Str) : Bool :=
+  hs.all headerLineOk && ss.all lineOk && !ss.isEmpty && fieldStart (ss.headD []) && lineOk L
+    && (lastEv none [] L .none == .plain) && startsWithAny tokensSet (lstrip L) && decide (2 ≤ (unlines (hs ++ ss)).length)
+
+theorem field_unterminated_split (hs ss : List Str) (L : Str) (h : unterminatedDom hs ss L = true) :
+    idxPair (unlines hs ++ (unlines ss ++ L) ++ [])
+      = .ok (((unlines hs).length : Int), (((unlines hs).length + (unlines ss ++ L).length : Nat) : Int)) := by
+  simp only [unterminatedDom, Bool.and_eq_true, Bool.not_eq_true', decide_eq_true_eq, beq_iff_eq] at h
+  obtain ⟨⟨⟨⟨⟨⟨⟨hh, hss⟩, hne⟩, hF⟩, hLok⟩, hL⟩, htok⟩, h2⟩ := h
+  have hne' : ss ≠ [] := by intro e; rw [e] at hne; cases hne
+  obtain ⟨hstart, hfmt, lf, hlf, hlo, hhi⟩ := field_frame_unterminated hs ss L hh hss hF hne' hL
+  have hd : unlines hs ++ (unlines ss ++ L) ++ [] = unlines (hs ++ ss) ++ L := by simp [unlines_append]
+  rw [hd]
+  obtain ⟨p, hp, hpe⟩ := unlines_snoc (hs ++ ss) h2
+  rw [hpe] at hlf hlo hhi hfmt hstart ⊢
+  have hlast := last_unterminated p L lf hlf hlo hhi hp (lineOk_sound L hLok) (tokStart_not_dashes L htok) hfmt
+  simp only [htok, if_true] at hlast
+  rw [idxPair_of _ _ _ hstart hlast]
+  have hlen : (p ++ ['\n']).length = (unlines hs).length + (unlines ss).length := by
+    rw [← hpe, unlines_append, List.length_append]
+  congr 3
+  simp only [List.length_append, List.length_cons, List.length_nil] at hlen ⊢; omega
+
+/-! ## the Google `Raises:` heading as the last token -/
+
+/-- the text after a `Raises:` line for which `_get_token_last_idx` reaches `_get_token_last_idx_if_no_next_token` -/
+def raisesPostOk (d post : Str) : Bool :=
+  match post with
+  | [] => true
+  | c :: _ => if isSpaceC c then !startsWithAny tokensSet (lstrip (lastLine d)) else !startsWithAny tokensSet post
+
+/-- the last token is the heading `Raises:` (line `L`), nothing token-like follows -/
+def raisesDom (hs ss : List Str) (L post : Str) : Bool :=
+  fieldCommon hs ss L && isRaises L && decide (2 ≤ (unlines (hs ++ ss)).length) && quiet none [] post
+    && raisesPostOk (unlines hs ++ unlines ss ++ L ++ '\n' :: post) post
+
+/-- **`Raises:` short-circuit**: the split point is the newline *before* the `Raises:` line — the heading and everything
+    after it is footer -/
+theorem field_raises_split (hs ss : List Str) (L post : Str) (h : raisesDom hs ss L post = true) :
+    idxPair (unlines hs ++ unlines ss ++ L ++ '\n' :: post)
+      = .ok (((unlines hs).length : Int), (((unlines hs ++ unlines ss).length - 1 : Nat) : Int)) := by
+  simp only [raisesDom, fieldCommon, Bool.and_eq_true, decide_eq_true_eq] at h
+  obtain ⟨⟨⟨⟨⟨⟨⟨hh, hss⟩, hF⟩, hL⟩, hR⟩, h2⟩, hq⟩, hpo⟩ := h
+  obtain ⟨hstart, hfmt, lf, hlf, hlo, hhi⟩ := field_frame hs ss L post hh hss hF hL hq
+  have hd : unlines hs ++ unlines ss ++ L ++ '\n' :: post = unlines (hs ++ ss) ++ L ++ '\n' :: post := by
+    simp [unlines_append]
+  rw [hd] at hpo ⊢
+  obtain ⟨p, hp, hpe⟩ := unlines_snoc (hs ++ ss) h2
+  have hlen : (unlines hs ++ unlines ss).length = (p ++ ['\n']).length := by rw [← hpe, unlines_append]
+  have hres : (((p ++ ['\n']).length : Nat) : Int) - 1 = (((unlines hs ++ unlines ss).length - 1 : Nat) : Int) := by
+    rw [hlen]; simp only [List.length_append, List.length_singleton]; omega
+  rw [hpe] at hlf hlo hhi hfmt hstart hpo ⊢
+  cases hpost : post with
+  | nil =>
+    subst hpost
+    have hlast := last_adjacent p L [] lf hlf hlo hhi hp (tokLine_lineOk L hL) (Or.inl rfl) rfl (tokLine_not_dashes L hL) hfmt
+    rw [lineVerdict_raises _ _ hR, Option.getD_some, hres] at hlast
+    exact idxPair_of _ _ _ hstart hlast
+  | cons c cs =>
+    subst hpost
+    simp only [raisesPostOk] at hpo
+    by_cases hc : isSpaceC c = true
+    · simp only [hc, if_true, Bool.not_eq_true'] at hpo
+      generalize hdd : p ++ ['\n'] ++ L ++ '\n' :: c :: cs = d at *
+      obtain ⟨A, hA⟩ := lastLine_decomp d (by rw [← hdd]; simp)
+      have hlast := last_absorbed d p L (c :: cs) A (lastLine d) lf hdd.symm hA hlf hlo hhi hp (tokLine_lineOk L hL)
+        (lastLine_noNl d) ⟨c, cs, rfl, hc⟩ (tokLine_not_dashes L hL) hfmt
+      rw [lineVerdict_raises _ _ hR, Option.getD_some, hres] at hlast
+      simp only [hpo, Bool.false_eq_true, if_false] at hlast
+      exact idxPair_of _ _ _ hstart hlast
+    · have hc' : isSpaceC c = false := by simpa using hc
+      simp only [hc', Bool.false_eq_true, if_false, Bool.not_eq_true'] at hpo
+      have hlast := last_adjacent p L (c :: cs) lf hlf hlo hhi hp (tokLine_lineOk L hL) (Or.inr ⟨c, cs, rfl, hc'⟩) hpo
+        (tokLine_not_dashes L hL) hfmt
+      rw [lineVerdict_raises _ _ hR, Option.getD_some, hres] at hlast
+      exact idxPair_of _ _ _ hstart hlast
+
+/-- … as three pieces when another section line precedes the heading: the section is those lines without their last
+    newline, the footer starts with that newline -/
+theorem field_raises_pieces (hs ss : List Str) (L post : Str) (h : raisesDom hs ss L post = true) (hne : ss ≠ []) :
+    ∃ sec, unlines ss = sec ++ ['\n'] ∧
+      idxPair (unlines hs ++ sec ++ ('\n' :: (L ++ '\n' :: post)))
+        = .ok (((unlines hs).length : Int), (((unlines hs).length + sec.length : Nat) : Int)) := by
+  have hidx := field_raises_split hs ss L post h
+  obtain ⟨sec, hsec⟩ : ∃ sec, unlines ss = sec ++ ['\n'] := by
+    rcases List.eq_nil_or_concat ss with h0 | ⟨ss', l, h0⟩
+    · exact absurd h0 hne
+    · subst h0
+      exact ⟨unlines ss' ++ l, by rw [List.concat_eq_append, unlines_append, unlines_cons, unlines_nil]; simp⟩
+  refine ⟨sec, hsec, ?_⟩
+  have hd : unlines hs ++ sec ++ ('\n' :: (L ++ '\n' :: post)) = unlines hs ++ unlines ss ++ L ++ '\n' :: post := by
+    rw [hsec]; simp
+  rw [hd, hidx]
+  congr 3
+  rw [List.length_append, hsec]; simp
+
+/-! ## consequences of an exact split `idxPair (h ++ s ++ f) = (|h|, |h| + |s|)` -/
+
+/-- the indices are ordered (the hypothesis of `C15.split_partial`, discharged) -/
+theorem exact_ordered (h s f : Str)
+    (hidx : idxPair (h ++ s ++ f) = .ok ((h.length : Int), ((h.length + s.length : Nat) : Int)))
+    (a b : Int) (hab : idxPair (h ++ s ++ f) = .ok (a, b)) : 0 ≤ a ∧ a ≤ b := by
+  rw [hidx] at hab
+  injection hab with hab
+  simp only [Prod.mk.injEq] at hab
+  omega
+
+/-- the three parts are the three pieces, byte for byte -/
+theorem exact_parts (h s f : Str)
+    (hidx : idxPair (h ++ s ++ f) = .ok ((h.length : Int), ((h.length + s.length : Nat) : Int)))
+    (a b : Int) (hab : idxPair (h ++ s ++ f) = .ok (a, b)) : rawParts (h ++ s ++ f) a b = (some h, s, some f) := by
+  rw [hidx] at hab
+  injection hab with hab
+  simp only [Prod.mk.injEq] at hab
+  rw [← hab.1, ← hab.2]; exact rawParts_exact h s f
+
+/-- the split is a partition — `C15.C15_split_full` on this docstring, with no ordering hypothesis -/
+theorem exact_partitions (h s f : Str)
+    (hidx : idxPair (h ++ s ++ f) = .ok ((h.length : Int), ((h.length + s.length : Nat) : Int)))
+    (a b : Int) (hab : idxPair (h ++ s ++ f) = .ok (a, b)) : Partitions (h ++ s ++ f) a b := by
+  unfold Partitions
+  rw [exact_parts h s f hidx a b hab]; rfl
+
+/-- conversion (`ensure_doc_args_whence_original` with this docstring as the original) returns the original itself or
+    `header ++ (something) ++ footer`: every header line, in order, before the new section; every footer line after it -/
+theorem exact_whence (h s f : Str) (hne : h ++ s ++ f ≠ [])
+    (hidx : idxPair (h ++ s ++ f) = .ok ((h.length : Int), ((h.length + s.length : Nat) : Int)))
+    (cur r : Str) (hw : whence cur (h ++ s ++ f) = .ok r) : r = h ++ s ++ f ∨ ∃ mid, r = h ++ mid ++ f :=
+  whence_sandwich cur h s f r hne hidx hw
+
+/-! ## `start > last` -/
+
+/-- slice algebra, the other direction: with `0 ≤ last < start ≤ |d|` header and footer overlap and the three slices do
+    **not** concatenate to the original -/
+theorem not_partitions_of_gt (d : Str) (s l : Int) (h0 : 0 ≤ l) (hlt : l < s) (hs : s ≤ d.length) : ¬ Partitions d s l := by
+  unfold Partitions rawParts
+  have h1 : (s > -1) = True := by simp; omega
+  have h2 : (l > -1) = True := by simp; omega
+  have h3 : (l != -1) = true := by simp; omega
+  simp only [h1, h2, h3, if_true, Option.getD_some]
+  rw [slice_to d s (by omega), slice_mid d s l (by omega) h0, slice_from d l h0]
+  intro h
+  have := congrArg List.length h
+  simp only [List.length_append, List.length_take, List.length_drop] at this
+  omega
+
+/-- **every docstring whose only section heading is `Raises:` violates the partition**: the walkers return
+    `start = |header|`, `last = |header| - 1`; the newline before `Raises:` is in the header slice *and* in the footer slice -/
+theorem raises_only_not_partition (hs : List Str) (L post : Str) (h : raisesDom hs [] L post = true) :
+    ∃ s l, idxPair (unlines hs ++ L ++ '\n' :: post) = .ok (s, l) ∧ l < s
+      ∧ ¬ Partitions (unlines hs ++ L ++ '\n' :: post) s l := by
+  have hidx := field_raises_split hs [] L post h
+  simp only [raisesDom, Bool.and_eq_true, decide_eq_true_eq] at h
+  have h2 : 2 ≤ (unlines hs).length := by have := h.1.1.2; simpa using this
+  simp only [unlines_nil, List.append_nil] at hidx
+  refine ⟨_, _, hidx, by omega, ?_⟩
+  apply not_partitions_of_gt _ _ _ (by omega) (by omega)
+  simp only [List.length_append]; omega
+
+/-! ## the domain as one predicate, and `C15.C15_split_full` on it -/
+
+/-- the structured field-list docstrings covered by the theorems above (ReST and Google; any number of header lines,
+    section lines and footer lines, lines of any length) -/
+inductive Structured : Str → Prop
+  | compact (hs ss : List Str) (L T footer : Str) (h : compactDom hs ss L T footer = true) :
+      Structured (unlines hs ++ (unlines ss ++ L ++ '\n' :: T) ++ footer)
+  | adjacent (hs ss : List Str) (L footer : Str) (h : adjacentDom hs ss L footer = true) :
+      Structured (unlines hs ++ (unlines ss ++ L ++ ['\n']) ++ footer)
+  | absorbed (hs ss : List Str) (L post : Str) (h : absorbedDom hs ss L post = true) :
+      Structured (unlines hs ++ unlines ss ++ L ++ '\n' :: post)
+  | unterminated (hs ss : List Str) (L : Str) (h : unterminatedDom hs ss L = true) :
+      Structured (unlines hs ++ (unlines ss ++ L) ++ [])
+  | raises (hs ss : List Str) (L post : Str) (h : raisesDom hs ss L post = true) (hne : ss ≠ []) :
+      Structured (unlines hs ++ unlines ss ++ L ++ '\n' :: post)
+
+/-- **`C15.C15_split_full` restricted to the domain is a theorem** — no ordering hypothesis: on every structured
+    docstring the walkers' indices are ordered and the three slices concatenate to the original. -/
+theorem C15_split_structured (d : Str) (s l : Int) (hd : Structured d) (h : idxPair d = .ok (s, l)) :
+    0 ≤ s ∧ s ≤ l ∧ Partitions d s l := by
+  cases hd with
+  | compact hs ss L T footer hdom =>
+    have hidx := field_compact_split hs ss L T footer hdom
+    exact ⟨(exact_ordered _ _ _ hidx s l h).1, (exact_ordered _ _ _ hidx s l h).2, exact_partitions _ _ _ hidx s l h⟩
+  | adjacent hs ss L footer hdom =>
+    have hidx := field_adjacent_split hs ss L footer hdom
+    exact ⟨(exact_ordered _ _ _ hidx s l h).1, (exact_ordered _ _ _ hidx s l h).2, exact_partitions _ _ _ hidx s l h⟩
+  | absorbed hs ss L post hdom =>
+    obtain ⟨sec, hsec, hidx⟩ := field_absorbed_pieces hs ss L post hdom
+    rw [hsec] at h ⊢
+    exact ⟨(exact_ordered _ _ _ hidx s l h).1, (exact_ordered _ _ _ hidx s l h).2, exact_partitions _ _ _ hidx s l h⟩
+  | unterminated hs ss L hdom =>
+    have hidx := field_unterminated_split hs ss L hdom
+    exact ⟨(exact_ordered _ _ _ hidx s l h).1, (exact_ordered _ _ _ hidx s l h).2, exact_partitions _ _ _ hidx s l h⟩
+  | raises hs ss L post hdom hne =>
+    obtain ⟨sec, hsec, hidx⟩ := field_raises_pieces hs ss L post hdom hne
+    have hd : unlines hs ++ unlines ss ++ L ++ '\n' :: post = unlines hs ++ sec ++ ('\n' :: (L ++ '\n' :: post)) := by
+      rw [hsec]; simp
+    rw [hd] at h ⊢
+    exact ⟨(exact_ordered _ _ _ hidx s l h).1, (exact_ordered _ _ _ hidx s l h).2, exact_partitions _ _ _ hidx s l h⟩
+
+/-- `idx_ordered`: on the domain `start ≤ last` -/
+theorem idx_ordered (d : Str) (s l : Int) (hd : Structured d) (h : idxPair d = .ok (s, l)) : s ≤ l :=
+  (C15_split_structured d s l hd h).2.1
+
+/-! ## non-vacuity: concrete docstrings -/
+
+/-- a two-paragraph header -/
+def exHs : List Str := [cs!"Summary line.", [], cs!"Second paragraph", cs!"continues here, mentions :param in passing.", []]
+
+/-- ReST, compact: two parameters with types (a blank line between them), a return line, a footer -/
+def exSs : List Str := [cs!":param a: first", cs!":type a: ```int```", [], cs!":param b: second"]
+def exL : Str := cs!":type b: ```str```"
+def exT : Str := cs!":return: the result"
+def exFooter : Str := cs!"\n\nNotes about usage.\nMore notes.\n"
+def exDoc : Str := cs!"Summary line.\n\nSecond paragraph\ncontinues here, mentions :param in passing.\n\n:param a: first\n:type a: ```int```\n\n:param b: second\n:type b: ```str```\n:return: the result\n\nNotes about usage.\nMore notes.\n"
+
+example : compactDom exHs exSs exL exT exFooter = true := by decide
+example : unlines exHs ++ (unlines exSs ++ exL ++ '\n' :: exT) ++ exFooter = exDoc := by decide
+
 end C15Struct
